@@ -466,6 +466,21 @@ REGISTRY = {
                 rule="case = CHAR/BINARY (max 0..1023 bytes), VARCHAR (0..65535), BLOB/GEOMETRY (1..4 length bytes) x actual lengths "
                      "{0,1,255,256,max,random} x byte content classes; plus tables of 1..4 such columns end to end with cells "
                      "absent / NULL / empty / value in every column position"),
+    "C18": dict(mode="c18", trace_module="Trace_Codec", trace_cfg="Trace_Codec.cfg", props=["C18"], block_ev=["case"],
+                mc=[dict(module="MC_GTIDSet", cfg={"quick": "MC_GTIDSet.quick.cfg", "thorough": "MC_GTIDSet.thorough.cfg"}, workers=12)],
+                gen=dict(module="Gen_GTIDSet", cfg={"quick": "Gen_GTIDSet.quick.cfg", "thorough": "Gen_GTIDSet.thorough.cfg"}),
+                assumptions=["sets are built on the real type from the binary SID-block form written by the harness (public constructor)",
+                             "sequence numbers in the algebraic checks stay below 2^31 (TLC integers); 2^63-scale numbers are covered as texts by C19"],
+                rule="case = one exported call on the real Mysql56GTIDSet: every set over 2 server UUIDs in the window (enumerated by TLC) x every "
+                     "GTID in and just outside the window for AddGTID/ContainsGTID, all (thorough) or a covering sample (quick) of pairs for "
+                     "Contains/Equal, random wide sets with AddGTID histories of up to 12 steps aimed at interval edges; distinct by content"),
+    "C19": dict(mode="c19", trace_module="Trace_Codec", trace_cfg="Trace_Codec.cfg", props=["C19"], block_ev=["case"],
+                mc=[dict(module="MC_MariaGTID", cfg="MC_MariaGTID.cfg", workers=4)],
+                assumptions=["the flavor's own set parser is reached through a 3-line overlay shim in package replication (harness/repl/vf_shim.go)",
+                             "GTID / PREVIOUS_GTIDS / MariaDB GTID event bodies are built by the harness's independent writer"],
+                rule="case = print/parse/encode/decode round trip of a GTID (all-00/all-ff/single-byte/random SIDs, sequence numbers to 2^63-1, "
+                     "MariaDB domain/server 0..2^32-1), of MySQL 5.6 sets with 0..8 members and 2^62-scale intervals (text, SID block, "
+                     "PREVIOUS_GTIDS event), of MariaDB sets with 1..8 members, GTID event bodies, and AddGTID/ContainsGTID histories on MariaDB sets"),
     "C03": dict(mode="c03", mc=[MC_STREAMER], trace_module="Trace_Stream", trace_cfg="Trace_Stream.cfg", props=["C03"],
                 nontrivial=has_tx, assumptions=STREAM_ASSUME,
                 rule="scenario = generated history (up to 4 files, per-file offset bases up to 2^32) streamed once in full and then once "
